@@ -26,6 +26,11 @@ def main():
             pkg,binname=PKG[p].split()
             t0=time.time()
             r=sh(f"{ROOT}/tools/scratch.sh run {sname} {pkg} {binname} {p} --tier quick --seed 1")
+            if p=="C05":
+                # second half of the same check (client level, vapi)
+                r2=sh(f"{ROOT}/tools/scratch.sh run {sname} api vapi C05 --tier quick --seed 1")
+                r.stdout += r2.stdout
+                if r2.returncode==1 or r.returncode==0: r.returncode=r2.returncode if r.returncode!=1 else 1
             sigs=[l.split("signature=")[1].strip() for l in r.stdout.splitlines() if l.startswith("violation signature=")]
             caught = r.returncode==1 and "VIOLATION property=" in r.stdout
             res[p]={"caught":caught,"exit":r.returncode,"signatures":sigs[:4],"wall_s":round(time.time()-t0)}
